@@ -3,8 +3,10 @@ package props
 import (
 	"bytes"
 	"fmt"
+	"io"
 	"math/rand"
 	"reflect"
+	"sort"
 	"strings"
 	"sync"
 
@@ -52,6 +54,55 @@ var c03Paths = []c03Path{
 		err := e.WriteRows(&buf, rows)
 		return buf.Bytes(), err
 	}},
+	// the any-typed generic APIs: rows travel as []any (values and pointers alternating) through the
+	// per-node value writers of column_buffer_reflect.go (writeValueFuncOf), a third implementation
+	{"generic-writer-any", func(e *gen.Entry, rows any, b []int, r *rand.Rand) ([]byte, error) {
+		var buf bytes.Buffer
+		err := c03WriteAny(&buf, e, rows, false)
+		return buf.Bytes(), err
+	}},
+	{"generic-buffer-any", func(e *gen.Entry, rows any, b []int, r *rand.Rand) ([]byte, error) {
+		var buf bytes.Buffer
+		err := c03WriteAny(&buf, e, rows, true)
+		return buf.Bytes(), err
+	}},
+}
+
+func c03WriteAny(w io.Writer, e *gen.Entry, rows any, viaBuffer bool) (err error) {
+	defer func() {
+		if r := recover(); r != nil {
+			err = fmt.Errorf("PANIC: %v", r)
+		}
+	}()
+	rv := reflect.ValueOf(rows)
+	anys := make([]any, rv.Len())
+	for i := range anys {
+		if i%2 == 0 {
+			anys[i] = rv.Index(i).Interface()
+		} else {
+			anys[i] = rv.Index(i).Addr().Interface()
+		}
+	}
+	if viaBuffer {
+		buf := parquet.NewGenericBuffer[any](e.Schema)
+		if len(anys) > 0 {
+			if _, err := buf.Write(anys); err != nil {
+				return err
+			}
+		}
+		pw := parquet.NewWriter(w, e.Schema)
+		if _, err := pw.WriteRowGroup(buf); err != nil {
+			return err
+		}
+		return pw.Close()
+	}
+	gw := parquet.NewGenericWriter[any](w, e.Schema)
+	if len(anys) > 0 {
+		if _, err := gw.Write(anys); err != nil {
+			return err
+		}
+	}
+	return gw.Close()
 }
 
 // describe a leaf column for failure keys: repetition pattern of its ancestors + physical type
@@ -76,6 +127,76 @@ func colDesc(schema *parquet.Schema, ci int) string {
 		}
 	}
 	return sb.String() + ":" + n.Type().Kind().String()
+}
+
+// goLeafType: the Go type of the struct field (element, map key/value) feeding the leaf column at
+// the given schema path, "" if it cannot be resolved.
+func goLeafType(t reflect.Type, path []string) string {
+	for len(path) > 0 {
+		for t.Kind() == reflect.Ptr {
+			t = t.Elem()
+		}
+		switch {
+		case t.Kind() == reflect.Slice && t.Elem().Kind() != reflect.Uint8:
+			if len(path) >= 2 && path[0] == "list" && path[1] == "element" {
+				path = path[2:]
+			}
+			t = t.Elem()
+		case t.Kind() == reflect.Map:
+			if len(path) < 2 || path[0] != "key_value" {
+				return ""
+			}
+			if path[1] == "key" {
+				t = t.Key()
+			} else {
+				t = t.Elem()
+			}
+			path = path[2:]
+		case t.Kind() == reflect.Struct && t.String() != "time.Time":
+			ft, ok := c03FieldType(t, path[0])
+			if !ok {
+				return ""
+			}
+			t, path = ft, path[1:]
+		default:
+			return ""
+		}
+	}
+	for t.Kind() == reflect.Ptr || t.Kind() == reflect.Slice && t.Elem().Kind() != reflect.Uint8 {
+		t = t.Elem()
+	}
+	return t.String()
+}
+
+// colKey: column description for failure keys — repetition pattern of the ancestors, physical
+// type, and the Go leaf type with the logical type when the leaf is not the plain image of its Go
+// type (width tags, time, decimal, uuid, ...), so that defects of different conversions get
+// different keys.
+func colKey(e *gen.Entry, ci int) string {
+	d := colDesc(e.Schema, ci)
+	path := e.Schema.Columns()[ci]
+	leaf, _ := e.Schema.Lookup(path...)
+	gt := goLeafType(e.Type, path)
+	plain := map[string]string{"BOOLEAN": "bool", "FLOAT": "float32", "DOUBLE": "float64"}
+	kind := leaf.Node.Type().Kind().String()
+	switch {
+	case gt == "" || plain[kind] == gt:
+		return d
+	case kind == "INT32" && (gt == "int32" || gt == "uint32") || kind == "INT64" && (gt == "int64" || gt == "uint64" || gt == "int" || gt == "uint"):
+		if lt := leaf.Node.Type().LogicalType(); lt == nil || strings.HasPrefix(lt.String(), "INT(") {
+			return d
+		}
+	case (kind == "BYTE_ARRAY" || kind == "FIXED_LEN_BYTE_ARRAY") && (gt == "string" || gt == "[]uint8" || strings.HasSuffix(gt, "]uint8")):
+		if lt := leaf.Node.Type().LogicalType(); lt == nil || lt.String() == "STRING" || lt.String() == "UUID" && gt != "string" {
+			return d
+		}
+	}
+	s := d + "/" + gt
+	if lt := leaf.Node.Type().LogicalType(); lt != nil {
+		name, _, _ := strings.Cut(lt.String(), "(")
+		s += ":" + name
+	}
+	return s
 }
 
 func c03Batches(r *rand.Rand, n int) []int {
@@ -126,12 +247,73 @@ func firstDiff(a, b [][]gen.Triple) (col int, idx int, desc string) {
 	return -2, 0, ""
 }
 
+// c03Types: the shared catalogue plus the round-3 extension types.
+func c03Types() []*gen.Entry {
+	out := append([]*gen.Entry(nil), gen.Catalog...)
+	for _, e := range gen.ExtCatalog {
+		if gen.ByName(e.Name) == nil {
+			out = append(out, e)
+		}
+	}
+	return out
+}
+
+// splitRows cuts a column stream into rows (a row starts at repetition level 0).
+func splitRows(col []gen.Triple) [][]gen.Triple {
+	var out [][]gen.Triple
+	for _, t := range col {
+		if t.Rep == 0 || len(out) == 0 {
+			out = append(out, nil)
+		}
+		out[len(out)-1] = append(out[len(out)-1], t)
+	}
+	return out
+}
+
+// unorderedDiff compares streams up to the order of map entries: per column and per row the
+// multisets of values, of repetition levels and of definition levels must agree (each of them is
+// invariant under a permutation of the entries of any map of the row, nested maps included; the
+// (rep, def) pairing is not, because the first entry of a map carries the parent's repetition
+// level). A null / non-null flip of any position changes the multiset of definition levels.
+func unorderedDiff(a, b [][]gen.Triple) (col int, row int, desc string) {
+	if len(a) != len(b) {
+		return -1, 0, fmt.Sprintf("column count %d vs %d", len(a), len(b))
+	}
+	for c := range a {
+		ra, rb := splitRows(a[c]), splitRows(b[c])
+		if len(ra) != len(rb) {
+			return c, 0, fmt.Sprintf("row count expected %d got %d", len(ra), len(rb))
+		}
+		for i := range ra {
+			for what, key := range map[string]func(gen.Triple) string{
+				"values":            func(t gen.Triple) string { return fmt.Sprint(t.Null, t.Val) },
+				"repetition levels": func(t gen.Triple) string { return fmt.Sprint(t.Rep) },
+				"definition levels": func(t gen.Triple) string { return fmt.Sprint(t.Def) },
+			} {
+				ka, kb := make([]string, len(ra[i])), make([]string, len(rb[i]))
+				for j, t := range ra[i] {
+					ka[j] = key(t)
+				}
+				for j, t := range rb[i] {
+					kb[j] = key(t)
+				}
+				sort.Strings(ka)
+				sort.Strings(kb)
+				if strings.Join(ka, ",") != strings.Join(kb, ",") {
+					return c, i, fmt.Sprintf("%s of the row differ (as multisets): expected %v got %v", what, ra[i], rb[i])
+				}
+			}
+		}
+	}
+	return -2, 0, ""
+}
+
 func RunC03(ctx *core.Ctx) {
-	ctx.SetRule("catalogue of generated Go struct types (required/optional-tag/pointer/slice/list/nested list/struct/pointer-to-struct/slice-of-struct leaves of all physical kinds) x random rows with null-run patterns around multiples of 8 and 64 x write batchings x 6 ingestion paths; expected streams from the harness reference shredder, which is compared row by row with the Lean `shred` (theorem assemble_shred); non-trivial = at least one optional or repeated leaf column holding both null and non-null entries; " + c03nsRule)
+	ctx.SetRule("catalogue of generated Go struct types (required/optional-tag/pointer/slice/list/nested list/struct/pointer-to-struct/slice-of-struct leaves of all physical kinds) x random rows with null-run patterns around multiples of 8 and 64 x write batchings x 8 ingestion paths (GenericWriter[T], Writer.Write(any), GenericBuffer[T], Buffer.Write(any), RowBuffer[T], WriteRows(Deconstruct), GenericWriter[any], GenericBuffer[any]); expected streams from the harness reference shredder, which is compared row by row with the Lean `shred` (theorem assemble_shred); non-trivial = at least one optional or repeated leaf column holding both null and non-null entries; " + c03nsRule)
 	ncases := ctx.Scale(6, 60) // per catalogue entry
 	var wg sync.WaitGroup
 	sem := make(chan struct{}, 16)
-	for ei, e := range gen.Catalog {
+	for ei, e := range c03Types() {
 		wg.Add(1)
 		sem <- struct{}{}
 		go func(ei int, e *gen.Entry) {
@@ -180,10 +362,16 @@ func RunC03(ctx *core.Ctx) {
 			rows := e.NewRows(n)
 			gen.FillRows(r, rows, &gen.Profile{NullProb: 0.3, MaxLen: 3})
 			ctx.Case(fmt.Sprintf("%s/%d/%v", e.Name, k, rows.Interface()), true)
+			// reference streams, map entries in key order
+			var all gen.Shredder
+			var valTexts []string
+			for i := 0; i < n; i++ {
+				valTexts = append(valTexts, all.ShredRow(e.Schema, rows.Index(i)))
+			}
 			back, err := e.Reconstruct(rows.Interface())
 			if err != nil {
 				ctx.Fail("L1", "reconstruct-error map "+errClass(err), "Schema.Reconstruct(Deconstruct(v)) failed: "+err.Error(), map[string]any{"type": e.Name, "rows": fmt.Sprintf("%+v", rows.Interface())})
-			} else if ok, diff := gen.CanonEqual(rows, reflect.ValueOf(back), e.Name); !ok {
+			} else if ok, diff := gen.CanonEqualOpt(rows, reflect.ValueOf(back), e.Name); !ok {
 				ctx.Fail("L1", "reconstruct-differs map", "Schema.Reconstruct(Deconstruct(v)) differs from v: "+diff, map[string]any{"type": e.Name, "rows": fmt.Sprintf("%+v", rows.Interface()), "diff": diff})
 			}
 			for _, p := range c03Paths {
@@ -192,6 +380,19 @@ func RunC03(ctx *core.Ctx) {
 					ctx.Fail("L1", "path-error map path="+p.name+" "+errClass(err), "ingestion path failed on a valid value: "+err.Error(), map[string]any{"type": e.Name, "rows": fmt.Sprintf("%+v", rows.Interface())})
 					continue
 				}
+				// the stored streams, up to the order of map entries: which positions are null
+				// (definition levels) is the same on every path
+				if cols, err := gen.ReadColumns(file); err != nil {
+					ctx.Fail("L1", "readback-error map path="+p.name+" "+errClass(err), "stored streams cannot be read back: "+err.Error(), map[string]any{"type": e.Name, "rows": fmt.Sprintf("%+v", rows.Interface())})
+				} else if c, i, desc := unorderedDiff(all.Cols, cols); c != -2 {
+					cd := "?"
+					if c >= 0 {
+						cd = colKey(e, c)
+					}
+					ctx.Fail("L1", "stream-mismatch map path="+p.name+" col="+cd,
+						fmt.Sprintf("path %s stores a different Dremel stream than the documented mapping (compared up to map entry order): column %d row %d: %s", p.name, c, i, desc),
+						map[string]any{"type": e.Name, "path": p.name, "schema": gen.NodeText(e.Schema), "rows": valTexts, "go_rows": fmt.Sprintf("%+v", rows.Interface()), "column": c, "row": i})
+				}
 				got, err := e.ReadAll(bytes.NewReader(file), int64(len(file)))
 				if err != nil {
 					ctx.Fail("L1", "readback-error map path="+p.name+" "+errClass(err), err.Error(), map[string]any{"type": e.Name, "rows": fmt.Sprintf("%+v", rows.Interface())})
@@ -199,6 +400,21 @@ func RunC03(ctx *core.Ctx) {
 					ctx.Fail("L1", "value-mismatch map path="+p.name, "rows read back differ: "+diff, map[string]any{"type": e.Name, "rows": fmt.Sprintf("%+v", rows.Interface()), "diff": diff})
 				}
 			}
+		}
+	}
+	// undocumented shapes: what each path does is an observation, never a failure
+	for _, e := range gen.OddCatalog {
+		r := ctx.Rand("c03odd/" + e.Name)
+		rows := e.NewRows(4)
+		gen.FillRows(r, rows, &gen.Profile{NullProb: 0.5, MaxLen: 3})
+		for _, p := range c03Paths {
+			outcome := "stores the rows"
+			if _, err := p.write(e, rows.Interface(), nil, r); err != nil {
+				outcome = errClass(err)
+			}
+			ctx.Observe("undocumented-shape type="+e.Name+" path="+p.name+" "+outcome,
+				"a field shape outside the documented tags ("+e.Type.Field(0).Type.String()+") is accepted by SchemaOf; outcome of the path: "+outcome,
+				map[string]any{"type": e.Name, "go_type": e.Type.Field(0).Type.String(), "rows": fmt.Sprintf("%+v", rows.Interface())})
 		}
 	}
 	for name, why := range gen.Skipped {
@@ -275,7 +491,7 @@ func c03Case(ctx *core.Ctx, d interface {
 		if c, i, desc := firstDiff(expected, got); c != -2 {
 			cd := "?"
 			if c >= 0 {
-				cd = colDesc(e.Schema, c)
+				cd = colKey(e, c)
 			}
 			ctx.Fail("L1", "stream-mismatch path="+p.name+" col="+cd,
 				fmt.Sprintf("path %s stores a different Dremel stream than the documented mapping: column %d entry %d: %s", p.name, c, i, desc),
@@ -286,7 +502,7 @@ func c03Case(ctx *core.Ctx, d interface {
 	back, err := e.Reconstruct(rows.Interface())
 	if err != nil {
 		ctx.Fail("L1", "reconstruct-error "+errClass(err), "Schema.Reconstruct(Deconstruct(v)) failed: "+err.Error(), map[string]any{"type": e.Name, "rows": valTexts})
-	} else if ok, diff := gen.CanonEqual(rows, reflect.ValueOf(back), e.Name); !ok {
+	} else if ok, diff := gen.CanonEqualOpt(rows, reflect.ValueOf(back), e.Name); !ok {
 		ctx.Fail("L1", "reconstruct-differs", "Schema.Reconstruct(Deconstruct(v)) differs from v: "+diff, map[string]any{"type": e.Name, "rows": valTexts, "diff": diff})
 	}
 }
